@@ -31,7 +31,7 @@ m = {
               "source_commits": [], "add_only": True},
     "engines": [{"name": "lean4-proof+correspondence", "path": "/verif/check",
                  "serves_properties": [c["property_id"] for c in checks],
-                 "kind_free_text": "Lean 4 theorems about a hand-written executable model (lean/GoSquare), tied to /repo on every run by (a) a differential correspondence check: Go harness (harness/) vs the compiled Lean driver over a line protocol, (b) Gen/Facts.lean regenerated from the compiled package and proved equal to the model's literals; Go-side property oracles search for failing inputs"}],
+                 "kind_free_text": "Lean 4 theorems about a hand-written executable model (lean/GoSquare), tied to /repo on every run by (a) a differential correspondence check: Go harness (harness/) vs the compiled Lean driver over a line protocol, (b) Gen/Facts.lean regenerated from the compiled package and proved equal to the model's literals, (c) Gen/Src.lean: the integer functions translated from the Go syntax trees by /verif/translator on every run and proved equal to the model definitions (Tie/*.lean); Go-side property oracles search for failing inputs"}],
     "checks": checks,
     "not_applicable": na,
     "notes": "See DESIGN.md. `./check <id> quick|thorough` honours VERIF_SEED, VERIF_TIER and VERIF_REPO. /repo carries 7 `fix:` commits (KNOWN_FINDINGS.txt `fixed:` lines); KF1 is the one recorded known finding.",
